@@ -239,6 +239,8 @@ pub fn feature_modules() -> Vec<(&'static str, String)> {
         m("upper-type-names", "PDU ::= SEQUENCE { id INTEGER (0..7), ok BOOLEAN } msg PDU ::= { id 1, ok TRUE } ID ::= INTEGER (0..7) one ID ::= 1 LIST ::= SEQUENCE OF ID lst LIST ::= { 1, 2 } Hld ::= SEQUENCE { p PDU DEFAULT { id 2, ok FALSE } }"),
         m("value-named-like-type", "PDU ::= SEQUENCE { id INTEGER (0..7) } pdu PDU ::= { id 1 } Abc ::= INTEGER abc Abc ::= 5"),
         m("nested-choice-values", "Pdu-Hdr ::= SEQUENCE { c CHOICE { a INTEGER, b NULL } } v Pdu-Hdr ::= { c a:1 } Tp2 ::= CHOICE { a0 SEQUENCE { m0 INTEGER }, a1 CHOICE { a0 INTEGER, a1 NULL } } v2 Tp2 ::= a1:a0:5"),
+        // values that select into anonymous CHOICE types nested two and three levels deep (internal names of internal names)
+        m("deep-anonymous-choice-values", "Outer ::= CHOICE { mid CHOICE { pick CHOICE { a INTEGER, b NULL }, q NULL }, r NULL } v1 Outer ::= mid:pick:a:5 v2 Outer ::= mid:q:NULL Sq ::= SEQUENCE { m CHOICE { pick CHOICE { a INTEGER, b NULL }, q NULL } } v3 Sq ::= { m pick:a:5 } Lo ::= SEQUENCE OF CHOICE { pick CHOICE { a INTEGER, b NULL }, q NULL } v4 Lo ::= { pick:a:5, q:NULL } Deep ::= CHOICE { l1 CHOICE { l2 CHOICE { l3 CHOICE { a INTEGER } } } } v5 Deep ::= l1:l2:l3:a:7"),
         m("anonymous-element-values", "Tp1 ::= SEQUENCE OF CHOICE { a0 INTEGER, a1 NULL } v1 Tp1 ::= { a0:5 } Tp3 ::= SEQUENCE { m0 SEQUENCE OF CHOICE { a0 INTEGER, a1 NULL } } v3 Tp3 ::= { m0 { a0:5 } }"),
         m("time-values", "t1 UTCTime ::= \"990102030405Z\" t2 GeneralizedTime ::= \"19990102030405.5Z\" Tt ::= UTCTime t3 Tt ::= \"9901020304Z\" Ht ::= SEQUENCE { f GeneralizedTime DEFAULT \"19990102030405Z\", g UTCTime DEFAULT \"990102030405+0100\", h Tt DEFAULT \"000229235959Z\" }"),
         m("local-time-values", "Hl ::= SEQUENCE { f GeneralizedTime DEFAULT \"19990102030405\" } tl GeneralizedTime ::= \"19990102030405\""),
